@@ -76,16 +76,24 @@ def answer (kv : KV) : String :=
     let op := kv.getD "op" ""
     let form := parseForm (kv.getD "form" "o")
     let form2 := parseForm (kv.getD "form2" "o")
-    let simple (r : List Ev × Res) : String := fmt (showRes r.2) (canonEvs r.1) r.2.ids
+    let plA := kv.getD "kind" "tr" = "pl"
+    let plB := kv.getD "kind2" "tr" = "pl"
+    -- plain element kinds have no destructor: their drop events do not exist
+    let visible (e : Ev) : Bool :=
+      match e with
+      | .drop x => !((plA && decide (1 ≤ x) && decide (x ≤ 100)) || (plB && decide (101 ≤ x) && decide (x ≤ 999)) ||
+                    (plA && op = "clone" && decide (1000 ≤ x)))
+      | _ => true
+    let simple (r : List Ev × Res) : String := fmt (showRes r.2) (canonEvs (r.1.filter visible)) r.2.ids
     match op, form, form2 with
     | "generate", _, _ => simple (generate f n)
     | "default", _, _ => simple (defaultOp f n)
     | "map", some fm, _ => simple (mapOp fm f xs)
     | "clone", _, _ => simple (cloneOp fc xs)
-    | "zip", some fa, some fb' => simple (zipOp fa fb' true true f xs ys)
+    | "zip", some fa, some fb' => simple (zipOp fa fb' (!plA) (!plB) f xs ys)
     | "fold", some fm, _ =>
       let r := foldOp fm fb xs
-      fmt (if r.2 then "ok" else "panicked") (canonEvs r.1) []
+      fmt (if r.2 then "ok" else "panicked") (canonEvs (r.1.filter visible)) []
     | "collect", _, _ =>
       let script := (kv.getD "script" "").toList.zipIdx.map fun (c, k) => if c = 's' then some (500 + k) else none
       let hint : Nat × Option Nat :=
